@@ -59,8 +59,29 @@ theorem rk_injective (cfg : Cfg) (a b : Bytes) (h : rk cfg a = rk cfg b) : a = b
     · simp only [ha, hb, if_false] at h
       exact dsKey_injective a b (List.append_cancel_left h)
 
+/-- on encoder output go-base32's lenient decoder is the bit-level decoder: no newline characters to
+strip, and the encoded length is never 3 or 6 modulo 8 -/
+theorem decodeGo32_encode (mh : Bytes) : decodeGo32 (encode b32 mh) = some mh := by
+  have hd := decode_encode b32 b32_wf mh
+  have hl := b32_length mh
+  have hf : (encode b32 mh).filter (fun c => c ≠ '\r' ∧ c ≠ '\n') = encode b32 mh := by
+    rw [List.filter_eq_self]
+    intro c hc
+    have hm : c ∈ b32.alphabet := encode_mem_alphabet b32 b32_wf mh c hc
+    have : ∀ c ∈ b32.alphabet, decide (c ≠ '\r' ∧ c ≠ '\n') = true := by decide
+    exact this c hm
+  unfold decodeGo32
+  simp only [hf]
+  cases hm : mapOpt b32.decDigit (encode b32 mh) with
+  | none => simp [decode, hm] at hd
+  | some ds =>
+    have h3 : ¬ ((encode b32 mh).length % 8 = 3 ∨ (encode b32 mh).length % 8 = 6) := by
+      rw [hl]; omega
+    simp only [h3, if_false]
+    exact hd
+
 theorem binaryFromDsKey_dsKey (mh : Bytes) : binaryFromDsKey (dsKey mh) = some mh := by
-  simp [binaryFromDsKey, dsKey, decode_encode b32 b32_wf]
+  simp [binaryFromDsKey, dsKey, decodeGo32_encode]
 
 /-! ### abstraction of single datastore updates -/
 
@@ -644,5 +665,63 @@ theorem no_identity_key_run (cfg : Cfg) (hi : cfg.idWrap = true) (s : Store) (op
       have := extractContents_congr c b.cid hm
       rw [hc] at this
       simp [isId, hi, ← this] at hb
+
+/-! ### the Provider option -/
+
+/-- every multihash announced by an operation is the multihash of one of its blocks that the identity
+layer let through -/
+theorem provided_sound (cfg : Cfg) (s : Store) (op : Op) :
+    ∀ call ∈ provided cfg s op, ∀ mh ∈ call, ∃ b ∈ op.blks, isId cfg b.cid = none ∧ mh = b.cid.mh := by
+  intro call hc mh hm
+  unfold provided at hc
+  cases hp : cfg.provider with
+  | false => simp [hp] at hc
+  | true =>
+    simp only [hp, Bool.not_true, Bool.false_eq_true, if_false] at hc
+    have hput : ∀ b : Blk, call ∈ bsProvidedPut cfg s b → mh = b.cid.mh := by
+      intro b hb
+      unfold bsProvidedPut at hb
+      split at hb
+      · simp at hb
+      · simp at hb; subst hb; simpa using hm
+    cases op with
+    | put b =>
+      simp only at hc
+      cases hi : cfg.idWrap with
+      | false =>
+        simp only [hi, Bool.false_and, Bool.false_eq_true, if_false] at hc
+        exact ⟨b, by simp [Op.blks], by simp [isId, hi], hput b hc⟩
+      | true =>
+        cases he : extractContents b.cid with
+        | some d => simp [hi, he] at hc
+        | none =>
+          simp only [hi, he, Option.isSome_none, Bool.and_false, Bool.false_eq_true, if_false] at hc
+          exact ⟨b, by simp [Op.blks], by simp [isId, hi, he], hput b hc⟩
+    | putMany bs =>
+      simp only at hc
+      have key : ∀ bs' : List Blk, call ∈ bsProvidedPutMany cfg s bs' → ∃ b ∈ bs', mh = b.cid.mh := by
+        intro bs' h
+        unfold bsProvidedPutMany at h
+        split at h
+        · rename_i b; exact ⟨b, by simp, hput b h⟩
+        · simp at h; subst h
+          obtain ⟨b, hb, e⟩ := List.mem_map.mp hm
+          exact ⟨b, hb, e.symm⟩
+      cases hi : cfg.idWrap with
+      | false =>
+        simp only [hi, Bool.false_eq_true, if_false] at hc
+        obtain ⟨b, hb, e⟩ := key bs hc
+        exact ⟨b, by simpa [Op.blks] using hb, by simp [isId, hi], e⟩
+      | true =>
+        simp only [hi, if_true] at hc
+        obtain ⟨b, hb, e⟩ := key _ hc
+        simp only [List.mem_filter, Option.isNone_iff_eq_none] at hb
+        exact ⟨b, by simpa [Op.blks] using hb.1, by simp [isId, hi, hb.2], e⟩
+    | delete c => simp at hc
+    | get c => simp at hc
+    | has c => simp at hc
+    | getSize c => simp at hc
+    | view c => simp at hc
+    | allKeys => simp at hc
 
 end C01
